@@ -58,6 +58,10 @@ CHECKS = {
    technique="TLA+ spec (Fs.tla MkdirOp with dry flag, DryCounts vs the kinds MkdirOp creates on a fresh target) model-checked by TLC; every dry-run state replayed through the three dry-run routes x {simple, massive} with jail snapshots, the report compared with the real plain output per root + the model's counts, the counts with a real mkdir",
    text="TLC exhausts forests up to the bound (hostile names included) x 5 extension lists x {Mkdir-from-Markdown, Mkdir-from-root} dry-run and checks C09_DryTouchesNothing, C09_DryRejectsIffReal, C09_CountsPredictReal; each state is replayed through Mkdir-from-Markdown+dry-run, Mkdir-from-root+dry-run and Output+dry-run (the CLI route), simple and massive: snapshot unchanged, report = per-root plain tree text + '<dirs> directories, <files> files' (blocks compared as a multiset in massive mode), rejection iff hostile names, and the counts equal what a real Mkdir with the same extensions creates in a fresh jail.",
    note="Colour is switched off (NO_COLOR) so that report bytes are comparable."),
+ 'C14': dict(level=MC, ref='DESIGN.md 7/C14, 3.8',
+   technique="TLA+ spec (Io.tla: what bufio.Scanner delivers when the reader fails after k tokens; write-call sequences and error reactions per sink) model-checked by TLC with ReaderErrReturned and NilMeansAllAccepted; every state replayed in worker processes with a fault-injecting reader (every byte offset) and writer (every Write call index, refusing nothing/half with an error)",
+   text="TLC exhausts forests up to the bound x {reader failure after every token offset, writer refusal at every call index up to one past the last, fail and short} x sink kinds; each read state is replayed at every byte offset inside its token through 18 From-Markdown routes (text, JSON, YAML, TOML, dry-run, walk, verify, mkdir dry-run; iterator/slice generators; simple and massive): the returned error must satisfy errors.Is(err, readerErr); each write state enumerates the call indices from the real fault-free run on 17 output routes (From-Markdown and From-Root, simple and massive): the call may return nil only if no Write was refused or cut and the accepted bytes equal the fault-free output (up to root order in massive mode).",
+   note="Writers that return n < len(p) without an error break the io.Writer contract and are not exercised. For verify the missing target is a second fault: only a non-nil error is required there."),
 }
 
 NOT_YET = "check not built yet (framework under construction; see DESIGN.md section 7)"
